@@ -105,8 +105,15 @@ impl KNumber {
             (I64(a), I64(b)) => {
                 if b < 0 {
                     F64((a as f64).powf(b as f64))
+                } else if let Ok(b) = u32::try_from(b) {
+                    I64(a.wrapping_pow(b))
                 } else {
-                    I64(a.wrapping_pow(b as u32))
+                    // The exponent doesn't fit in a u32, so apply it in two steps:
+                    // a^b == (a^(2^32))^(b >> 32) * a^(b & 0xffff_ffff), with wrapping throughout.
+                    let low = a.wrapping_pow((b & 0xffff_ffff) as u32);
+                    let a_2_32 = a.wrapping_pow(1 << 31).wrapping_pow(2);
+                    let high = a_2_32.wrapping_pow((b >> 32) as u32);
+                    I64(high.wrapping_mul(low))
                 }
             }
         }
